@@ -252,7 +252,10 @@ func lremModel(l []string, count int, v string) ([]string, int) {
 		}
 		return out, removed
 	}
-	c := -count
+	c := len(l)
+	if count > -len(l) {
+		c = -count // (negating math.MinInt64 would overflow)
+	}
 	keep := make([]bool, len(l))
 	for i := len(l) - 1; i >= 0; i-- {
 		if l[i] == v && removed < c {
@@ -562,7 +565,7 @@ func (m *Model) Outcomes(op Op) []Outcome {
 		}
 		nl, removed := lremModel(l, op.I, string(op.V))
 		do := func(m *Model) { m.L[b][k] = nl }
-		if op.I <= n && -op.I <= n {
+		if op.I <= n && op.I >= -n {
 			return one(rN(removed), do)
 		}
 		return []Outcome{{R: rErr()}, {R: rN(removed), Do: do}}
